@@ -303,6 +303,9 @@ func newNode(directive string) *node {
 
 var keyNames = []string{"any", "scalar", "numeric", "int", "float", "str", "bool", "bin", "arr", "hash", "coll", "undef", "dflt", "regexp"}
 
+// allKeyNames: with the two keys of DefaultFormats no generated value is an instance of (merged maps only)
+var allKeyNames = append(append([]string{}, keyNames...), "object", "type")
+
 func keyType(k string) px.Type {
 	switch k {
 	case "any":
@@ -333,6 +336,10 @@ func keyType(k string) px.Type {
 		return types.DefaultDefaultType()
 	case "regexp":
 		return types.DefaultRegexpType()
+	case "object":
+		return types.DefaultObjectType()
+	case "type":
+		return types.DefaultTypeType()
 	}
 	panic("bad key " + k)
 }
@@ -340,7 +347,7 @@ func keyType(k string) px.Type {
 // which value kinds a parameterless key type accepts (Go twin of the model's `Key.accepts`)
 var keyAccepts = map[string]string{
 	"any": "ifsbudxrah", "scalar": "ifsbr", "numeric": "if", "int": "i", "float": "f", "str": "s", "bool": "b",
-	"bin": "x", "arr": "a", "hash": "h", "coll": "ah", "undef": "u", "dflt": "d", "regexp": "r",
+	"bin": "x", "arr": "a", "hash": "h", "coll": "ah", "undef": "u", "dflt": "d", "regexp": "r", "object": "", "type": "",
 }
 
 func kindKey(tag string) string {
@@ -473,7 +480,7 @@ func ctxOf(e sx.Sexp, tag string, v px.Value) *fctx {
 	case "self", "new":
 		c.top = newNode(e.Args()[0].MustStr())
 		c.m = []entry{{key: "self", typ: v.PType(), n: c.top}}
-	case "map":
+	case "map", "mmap":
 		c.m = entriesOf(e.Args())
 	default:
 		panic("bad ctx " + e.String())
@@ -557,7 +564,47 @@ func renderMap(c px.Context, v px.Value, m []entry, level int) string {
 	})
 }
 
+// mmapInModel: what the model of mergeFormats covers — at most 4 entries per map (the sort is modelled for the 12 entries
+// that 8 defaults and 4 user entries make), nesting at most 3 (the cyclic default tables are unrolled), distinct keys
+func mmapInModel(m []entry, depth int) bool {
+	if len(m) > 4 || depth > 3 {
+		return false
+	}
+	seen := map[string]bool{}
+	for _, e := range m {
+		if seen[e.key] {
+			return false
+		}
+		seen[e.key] = true
+		if e.n.hasCf && !mmapInModel(e.n.cf, depth+1) {
+			return false
+		}
+	}
+	return true
+}
+
+// renderMerged: the user's per-type format map as new(String, v, map) takes it: px.NewFormatContext3 merges it with
+// DefaultFormats
+func renderMerged(c px.Context, v px.Value, m []entry) string {
+	if !mmapInModel(m, 1) {
+		return "out-of-model"
+	}
+	return deadline(func() string {
+		ctx, err := px.NewFormatContext3(v, formatMapValue(m))
+		if err != nil {
+			if rep, ok := err.(issue.Reported); ok {
+				return "reported " + string(rep.Code())
+			}
+			return "fault"
+		}
+		return textOut(px.ToString2(v, ctx))
+	})
+}
+
 func renderTop(c px.Context, fc *fctx, tag string, v px.Value) string {
+	if fc.mode == "mmap" {
+		return renderMerged(c, v, fc.m)
+	}
 	switch fc.mode {
 	case "kind":
 		return deadline(func() string {
@@ -1027,6 +1074,10 @@ func exec(c px.Context, op string, args []sx.Sexp) core.Result {
 	if op == "back" && len(args) == 2 {
 		return execBack(c, args[0].MustStr(), args[1].MustInt())
 	}
+	if op == "keysub" && len(args) == 2 {
+		// px.IsAssignable on the key types of format maps (the relation mergeFormats sorts and rejects by)
+		return core.Result{Out: sx.B(px.IsAssignable(keyType(args[0].Atom), keyType(args[1].Atom))), Pred: "ok", Tags: []string{"op:keysub"}}
+	}
 	// fmtf = fmt with an oracle of fmt.Sprintf results for the Lean driver (ignored here)
 	if !((op == "fmt" && len(args) == 2) || (op == "fmtf" && len(args) == 4)) {
 		return core.Result{Out: "bad-op", Pred: "FAIL harness-bad-op " + op}
@@ -1037,6 +1088,9 @@ func exec(c px.Context, op string, args []sx.Sexp) core.Result {
 	fc := ctxOf(args[0], tag, v)
 	out := renderTop(c, fc, tag, v)
 
+	if fc.mode == "mmap" {
+		return execMerged(c, fc, tag, ve, v, out)
+	}
 	n := fc.top
 	if n == nil {
 		n = lookup(fc.m, tag, v)
@@ -1174,6 +1228,158 @@ func exec(c px.Context, op string, args []sx.Sexp) core.Result {
 				return fail(cls, fmt.Sprintf("%s: got %q, without width/-/0 it is %q", d.raw, text, coreText))
 			}
 		}
+	}
+	return res("ok")
+}
+
+// hasNonFinite: a NaN or an infinity somewhere in the value
+func hasNonFinite(e sx.Sexp) bool {
+	switch e.Tag() {
+	case "f":
+		u, _ := strconv.ParseUint(e.Args()[0].Atom, 10, 64)
+		fl := math.Float64frombits(u)
+		return math.IsNaN(fl) || math.IsInf(fl, 0)
+	case "a":
+		for _, k := range e.Args() {
+			if hasNonFinite(k) {
+				return true
+			}
+		}
+	case "h":
+		for _, kv := range e.Args() {
+			if hasNonFinite(kv.List[0]) || hasNonFinite(kv.List[1]) {
+				return true
+			}
+		}
+	}
+	return false
+}
+
+// kindsIn: the kind letters of every value inside e (e included)
+func kindsIn(e sx.Sexp, into map[byte]bool) {
+	into[e.Tag()[0]] = true
+	switch e.Tag() {
+	case "a":
+		for _, k := range e.Args() {
+			kindsIn(k, into)
+		}
+	case "h":
+		for _, kv := range e.Args() {
+			kindsIn(kv.List[0], into)
+			kindsIn(kv.List[1], into)
+		}
+	}
+}
+
+// the keys of DefaultFormats and of DefaultContainerFormats whose entries carry container formats of their own (the
+// entries of the other default keys have none: there is nothing the user's string_formats could refine)
+var defaultKeys = map[string]bool{"object": true, "type": true, "arr": true, "hash": true}
+
+// prune removes (at every level) the entries whose key type accepts none of the kinds; changed reports whether any went
+func prune(m []entry, kinds map[byte]bool, mergedLevel bool) (out []entry, changed bool) {
+	for _, e := range m {
+		keep := false
+		for i := 0; i < len(keyAccepts[e.key]); i++ {
+			keep = keep || kinds[keyAccepts[e.key][i]]
+		}
+		if !keep {
+			changed = true
+			continue
+		}
+		if e.n.hasCf {
+			// this map is merged with a default map (DefaultFormats at the top, DefaultContainerFormats below an entry
+			// that was itself merged with a default container entry)
+			refines := mergedLevel && defaultKeys[e.key]
+			for _, o := range m {
+				if o.key != e.key && px.IsAssignable(keyType(o.key), keyType(e.key)) {
+					refines = false
+				}
+			}
+			cf, ch := prune(e.n.cf, kinds, refines)
+			// an entry whose key the defaults map too is MERGED with the default entry (unless another user key accepts
+			// the key, which drops the default): its string_formats refine the default element formats, so when they
+			// hold no relevant entry they say nothing — the same as none given.  (For any other key an empty
+			// string_formats is taken literally: no element formats at all.)
+			if ch || (len(cf) == 0 && refines) {
+				n := *e.n
+				n.cf = cf
+				if len(cf) == 0 && refines {
+					n.hasCf = false
+				}
+				e.n = &n
+				changed = true
+			}
+		}
+		out = append(out, e)
+	}
+	return out, changed
+}
+
+// execMerged: `fmt (mmap …) v` — the text is compared with the model of mergeFormats; directly on the implementation:
+// total; only the documented errors; the user's directive for the exact type of a scalar is the one applied; and an
+// entry whose key type accepts no value inside v (v included) never changes the rendering of v
+func execMerged(c px.Context, fc *fctx, tag string, ve sx.Sexp, v px.Value, out string) core.Result {
+	tags := []string{"kind:" + tag, "ctx:mmap", "out:" + strings.SplitN(out, " ", 2)[0]}
+	res := func(pred string) core.Result { return core.Result{Out: out, Pred: pred, NonTrivial: true, Tags: tags} }
+	fail := func(class, detail string) core.Result {
+		r := core.Fail(out, class, oneLine(detail))
+		r.Tags = tags
+		return r
+	}
+	switch {
+	case out == "timeout":
+		return fail("hang", "formatting did not finish within 2s")
+	case out == "fault":
+		return fail("fault", "formatting raised a runtime fault")
+	case out == "out-of-model":
+		return res("n/a")
+	}
+	if anyInvalid(fc.m) {
+		if strings.HasPrefix(out, "reported PCORE_INVALID_STRING_FORMAT") {
+			return res("n/a")
+		}
+		return fail("invalid-accepted", "a directive outside the grammar was not rejected: "+out)
+	}
+	text, isT := isText(out)
+	if !isT {
+		if out == "reported "+unsupported || (out == "reported PCORE_FAILURE" && hasBadBinary(ve)) {
+			return res("ok")
+		}
+		return fail("other-error", "formatting raised "+out)
+	}
+	if strings.Contains(text, "%!") && !hasPercent(ve) && !sepHasPercent(fc.m) {
+		return fail("go-fmt-leak", fmt.Sprintf("a Go fmt error marker in the output: %q", text))
+	}
+	if hasNonFinite(ve) {
+		// NaN and ±Inf are not instances of Float (its range is ±MaxFloat64): no Float entry applies to them
+		return res("n/a")
+	}
+	// the user's directive for the exact type of a scalar applies to it
+	if !isContainerTag(tag) {
+		for _, e := range fc.m {
+			if e.key == kindKey(tag) && !e.n.hasSep && !e.n.hasSep2 && !e.n.hasCf {
+				want := renderTop(c, &fctx{mode: "kind", top: e.n, m: []entry{{key: e.key, typ: e.typ, n: e.n}}}, tag, v)
+				if want != out {
+					wt, _ := isText(want)
+					return fail("exact-key-ignored", fmt.Sprintf("the map gives %s for %s, which alone renders %q (%s); got %q", e.n.d.raw, e.key, wt, want, text))
+				}
+			}
+		}
+	}
+	// an entry for a type that has no instance inside the value does not matter
+	kinds := map[byte]bool{}
+	kindsIn(ve, kinds)
+	if kinds['h'] {
+		kinds['a'] = true // a hash formatted with %a is rendered as the array of its entries
+	}
+	if pm, changed := prune(fc.m, kinds, true); changed {
+		other := renderMerged(c, v, pm)
+		if other != out {
+			ot, _ := isText(other)
+			tags = append(tags, "pruned")
+			return fail("irrelevant-entry-matters", fmt.Sprintf("got %q; without the entries whose type has no instance in the value: %q (%s)", text, ot, other))
+		}
+		tags = append(tags, "pruned")
 	}
 	return res("ok")
 }
